@@ -14,3 +14,102 @@ Lemma Qleb_iff (a b : Q) : Qleb a b = true <-> a <= b.
 Proof. apply Qle_bool_iff. Qed.
 Lemma Qeqb_iff (a b : Q) : Qeqb a b = true <-> a == b.
 Proof. apply Qeq_bool_iff. Qed.
+
+(* ---------- division / multiplication shifting ---------- *)
+Lemma div_mul_cancel (n d : Q) : ~ d == 0 -> n / d * d == n.
+Proof. intro H. field. exact H. Qed.
+
+Lemma div_le_iff_pos (n d t : Q) : 0 < d -> (n / d <= t <-> n <= t * d).
+Proof.
+  intro Hd. assert (H : n / d * d == n) by (apply div_mul_cancel; lra).
+  set (q := n / d) in *. split; intro; nra.
+Qed.
+Lemma le_div_iff_pos (n d t : Q) : 0 < d -> (t <= n / d <-> t * d <= n).
+Proof.
+  intro Hd. assert (H : n / d * d == n) by (apply div_mul_cancel; lra).
+  set (q := n / d) in *. split; intro; nra.
+Qed.
+Lemma div_le_iff_neg (n d t : Q) : d < 0 -> (n / d <= t <-> t * d <= n).
+Proof.
+  intro Hd. assert (H : n / d * d == n) by (apply div_mul_cancel; lra).
+  set (q := n / d) in *. split; intro; nra.
+Qed.
+Lemma le_div_iff_neg (n d t : Q) : d < 0 -> (t <= n / d <-> n <= t * d).
+Proof.
+  intro Hd. assert (H : n / d * d == n) by (apply div_mul_cancel; lra).
+  set (q := n / d) in *. split; intro; nra.
+Qed.
+
+Lemma lerp_eq (a b t : Q) : lerp a b t == b + t * (a - b).
+Proof. unfold lerp. ring. Qed.
+
+(* ---------- one coordinate ---------- *)
+Lemma Qltb_false_both (d : Q) : Qltb 0 d = false -> Qltb d 0 = false -> d == 0.
+Proof.
+  intros H1 H2.
+  assert (~ 0 < d) by (intro H; apply Qltb_iff in H; congruence).
+  assert (~ d < 0) by (intro H; apply Qltb_iff in H; congruence).
+  lra.
+Qed.
+
+Lemma axis_correct (a b t : Q) :
+  axis_ok a b = true -> 0 <= t -> t <= 1 ->
+  (axis_lo a b <= t /\ t <= axis_hi a b <-> 0 <= lerp a b t /\ lerp a b t <= 1).
+Proof.
+  unfold axis_ok, axis_lo, axis_hi. intros Hok Ht0 Ht1. rewrite !lerp_eq.
+  destruct (Qltb 0 (a - b)) eqn:Hp.
+  - apply Qltb_iff in Hp. rewrite (div_le_iff_pos _ _ _ Hp), (le_div_iff_pos _ _ _ Hp). split; intros [? ?]; split; lra.
+  - destruct (Qltb (a - b) 0) eqn:Hn.
+    + apply Qltb_iff in Hn. rewrite (div_le_iff_neg _ _ _ Hn), (le_div_iff_neg _ _ _ Hn). split; intros [? ?]; split; lra.
+    + assert (Hz : a - b == 0) by (apply Qltb_false_both; assumption).
+      assert (E : Qeqb (a - b) 0 = true) by (apply Qeqb_iff; exact Hz).
+      rewrite E in Hok. apply andb_true_iff in Hok. destruct Hok as [H0 H1].
+      apply Qleb_iff in H0. apply Qleb_iff in H1.
+      split; intros _; split; nra.
+Qed.
+
+Lemma axis_not_ok (a b t : Q) :
+  axis_ok a b = false -> ~ (0 <= lerp a b t /\ lerp a b t <= 1).
+Proof.
+  unfold axis_ok. intros Hok. rewrite !lerp_eq.
+  destruct (Qeqb (a - b) 0) eqn:E; [|discriminate].
+  apply Qeqb_iff in E. intros [H0 H1].
+  assert (Hb : 0 <= b /\ b <= 1) by (split; nra).
+  destruct Hb as [Hb0 Hb1]. apply Qleb_iff in Hb0. apply Qleb_iff in Hb1.
+  rewrite Hb0, Hb1 in Hok. discriminate.
+Qed.
+
+(* ---------- the clip interval is exactly the set of parameters inside the closed cell ---------- *)
+Theorem clip_interval_correct (s : seg) (t : Q) :
+  (exists lo hi, clip_interval s = Some (lo, hi) /\ lo <= t /\ t <= hi)
+  <-> (0 <= t /\ t <= 1 /\ in_unit_square (seg_point s t)).
+Proof.
+  unfold clip_interval, in_unit_square, seg_point. cbn [px py fst snd].
+  set (xs := px (seg_start s)). set (xe := px (seg_end s)).
+  set (ys := py (seg_start s)). set (ye := py (seg_end s)).
+  destruct (axis_ok xs xe) eqn:Hx; [destruct (axis_ok ys ye) eqn:Hy|]; cbn [andb].
+  - split.
+    + intros (lo & hi & Hs & Hlo & Hhi).
+      destruct (Qleb _ _) eqn:Hle in Hs; [|discriminate]. injection Hs as <- <-.
+      apply Q.max_lub_iff in Hlo. destruct Hlo as [Ht0 Hlo]. apply Q.max_lub_iff in Hlo. destruct Hlo as [Hlx Hly].
+      apply Q.min_glb_iff in Hhi. destruct Hhi as [Ht1 Hhi]. apply Q.min_glb_iff in Hhi. destruct Hhi as [Hhx Hhy].
+      destruct (proj1 (axis_correct xs xe t Hx Ht0 Ht1) (conj Hlx Hhx)).
+      destruct (proj1 (axis_correct ys ye t Hy Ht0 Ht1) (conj Hly Hhy)).
+      tauto.
+    + intros (Ht0 & Ht1 & Hx0 & Hx1 & Hy0 & Hy1).
+      destruct (proj2 (axis_correct xs xe t Hx Ht0 Ht1) (conj Hx0 Hx1)) as [Hlx Hhx].
+      destruct (proj2 (axis_correct ys ye t Hy Ht0 Ht1) (conj Hy0 Hy1)) as [Hly Hhy].
+      assert (Hlo : Qmax 0 (Qmax (axis_lo xs xe) (axis_lo ys ye)) <= t)
+        by (apply Q.max_lub_iff; split; [exact Ht0|apply Q.max_lub_iff; split; assumption]).
+      assert (Hhi : t <= Qmin 1 (Qmin (axis_hi xs xe) (axis_hi ys ye)))
+        by (apply Q.min_glb_iff; split; [exact Ht1|apply Q.min_glb_iff; split; assumption]).
+      assert (Hle : Qleb (Qmax 0 (Qmax (axis_lo xs xe) (axis_lo ys ye))) (Qmin 1 (Qmin (axis_hi xs xe) (axis_hi ys ye))) = true)
+        by (apply Qleb_iff; eapply Qle_trans; eassumption).
+      rewrite Hle. eexists _, _. split; [reflexivity|]. split; assumption.
+  - split.
+    + intros (lo & hi & Hs & _). discriminate.
+    + intros (_ & _ & _ & _ & H0 & H1). exfalso. exact (axis_not_ok ys ye t Hy (conj H0 H1)).
+  - split.
+    + intros (lo & hi & Hs & _). discriminate.
+    + intros (_ & _ & H0 & H1 & _). exfalso. exact (axis_not_ok xs xe t Hx (conj H0 H1)).
+Qed.
